@@ -26,6 +26,11 @@ theorem pow10_log10 (v : ℝ) (hv : 0 < v) : (pow10 (log10 v : ℝ) : ℝ) = v :
   have hl : Real.log 10 ≠ 0 := ne_of_gt (Real.log_pos (by norm_num))
   rw [Real.rpow_def_of_pos h10, mul_div_cancel₀ _ hl, Real.exp_log hv]
 
+theorem log10_le_log10 (a b : ℝ) (ha : 0 < a) (hab : a ≤ b) : (log10 a : ℝ) ≤ log10 b := by
+  simp only [log10_real]
+  have hl : (0 : ℝ) < Real.log 10 := Real.log_pos (by norm_num)
+  exact div_le_div_of_nonneg_right (Real.log_le_log ha hab) hl.le
+
 /-! ### token-level round trip -/
 
 theorem parseSeq_close (close : Tok) (rest : List Tok) : parseSeq close (close :: rest) = some ([], false, rest) := by
